@@ -4,3 +4,5 @@ def find(ctx, oblig, diag):
     res = ctx["replay_tool"](["secret"])
     if res.get("violates"): res["source"] = "Debug / serde_json renderings on the real crate"
     return res
+
+standing = find
